@@ -42,17 +42,17 @@ func (p *Prog) CalleeKeys(c ssa.CallInstruction) []string {
 			return []string{"field:" + FieldKeyOfAddr(fa)}
 		}
 		if a, ok := v.X.(*ssa.Alloc); ok {
-			return []string{"local:" + a.Comment}
+			return []string{"local:" + LocalName(a)}
 		}
 		if fv, ok := v.X.(*ssa.FreeVar); ok {
-			return []string{"fv:" + fv.Name()}
+			return []string{"fv:" + LocalName(fv)}
 		}
 	case *ssa.Field:
 		return []string{"field:" + fieldKey(v.X.Type(), v.Field)}
 	case *ssa.Parameter:
-		return []string{"param:" + v.Name()}
+		return []string{"param:" + ParamName(v)}
 	case *ssa.FreeVar:
-		return []string{"fv:" + v.Name()}
+		return []string{"fv:" + LocalName(v)}
 	case *ssa.MakeClosure:
 		if f, ok := v.Fn.(*ssa.Function); ok {
 			return []string{p.FuncKey(f)}
